@@ -26,6 +26,7 @@ class Report:
         self.assumptions = []
         self.bounded = []
         self.notes = []
+        self.bounded_mode = None   # when set, every obligation added is a bounded stand-in (never counted as proved)
 
     def under_contract(self, *qualnames):
         for q in qualnames:
@@ -42,10 +43,14 @@ class Report:
         """Adopt Obligation objects produced by pyvc.contract.verify."""
         for ob in obs:
             d = ob.to_json()
+            if self.bounded_mode:
+                d['bounded'] = self.bounded_mode
             self.obligations.append(d)
 
-    def add(self, name, kind, status, backend, seconds=0.0, model=None, note='', statement=None, finding_key=None):
+    def add(self, name, kind, status, backend, seconds=0.0, model=None, note='', statement=None, finding_key=None, bounded=None):
         d = {'name': name, 'kind': kind, 'status': status, 'backend': backend, 'seconds': round(seconds, 4)}
+        if bounded or self.bounded_mode:
+            d['bounded'] = bounded or self.bounded_mode
         if model is not None:
             d['model'] = model
         if note:
@@ -57,7 +62,7 @@ class Report:
         self.obligations.append(d)
         return d
 
-    def poly_zero(self, name, p, kind='post', statement=None, finding_key=None):
+    def poly_zero(self, name, p, kind='post', statement=None, finding_key=None, bounded=None):
         """Obligation: polynomial p is identically zero (decided by ring normal form; z3 supplies the
         counterexample point when it is not)."""
         import time
@@ -65,10 +70,10 @@ class Report:
         if isinstance(p, (int, Fraction)):
             p = Poly.const(p)
         if p.is_zero():
-            return self.add(name, kind, 'discharged', 'poly-normal-form', time.time() - t0, statement=statement)
+            return self.add(name, kind, 'discharged', 'poly-normal-form', time.time() - t0, statement=statement, bounded=bounded)
         model = poly_counterexample(p)
         return self.add(name, kind, 'refuted', 'poly-normal-form+z3-model', time.time() - t0, model=model,
-                        note='residual: ' + repr(p)[:300], statement=statement, finding_key=finding_key)
+                        note='residual: ' + repr(p)[:300], statement=statement, finding_key=finding_key, bounded=bounded)
 
     def result(self):
         E = self.E
